@@ -467,6 +467,11 @@ class Algorithm76(WeightedMod11):
         digits = super().get_digits(account_code)
         return digits.rstrip("0")
 
+    def reconcile(self, checksum: int) -> int:
+        if checksum == 10:
+            raise InvalidBBANChecksum("Account codes with remainder 10 cannot be used")
+        return checksum
+
     def validate(self, components: list[str], expected: str) -> bool:
         [account_code] = components
         if int(account_code[0]) not in {0, 4, 6, 7, 8, 9}:
